@@ -40,6 +40,9 @@ def run(ctx, tpl, max_addr=65535):
     for it in tpl.items:
         if it[0] == "lit":
             t, v = ctx.lit(it[2], it[1])
+            if len(it) > 3:
+                ctx.assume(it[3] <= v)
+                ctx.assume(v <= it[4])
             texts[it[1]] = t
             vals[it[1]] = v
     total = 0
@@ -85,7 +88,12 @@ def run(ctx, tpl, max_addr=65535):
             m["b"] = None  # lazily via bytes_of
         m["_st"] = st[i]
         if m["kind"] == "ins":
-            m["b"] = stmt_bytes(st[i])
+            try:
+                m["b"] = stmt_bytes(st[i])
+            except Exception as e:  # noqa: BLE001 -- image generation itself failed: an internal error
+                from vlib.harness import Outcome, _site
+                r.out = Outcome("internal", out.program, e, _site(e.__traceback__))
+                return r
             m["n_emitted"] = len(m["b"])
         addr = addr + m["n_emitted"]
     r.end = addr
